@@ -22,6 +22,8 @@ import (
 	"strconv"
 )
 
+const maxBulkLength = 512 * 1024 * 1024
+
 // Paser represents a Redis serialization protocol (RESP) parser.
 type Parser struct {
 	reader io.Reader
@@ -71,26 +73,22 @@ func (parser *Parser) nextLineBytes() ([]byte, error) {
 
 // get next bulk message bytes of length num.
 func (parser *Parser) nextLengthBytes(num int) ([]byte, error) {
-	n := num + 2 // + crlf
-	buf := make([]byte, n)
-	totalRead := 0
-	for totalRead < n {
-		read, err := parser.reader.Read(buf[totalRead:])
-		if err != nil {
-			if err == io.EOF {
-				if totalRead+read < n {
-					return nil, fmt.Errorf(errorInvalidBulkStringLength, totalRead+read, num)
-				}
-				break
-			}
-			return nil, err
+	if num > maxBulkLength {
+		return nil, fmt.Errorf(errorTooLargeBulkString, num)
+	}
+	var buf bytes.Buffer
+	read, err := io.CopyN(&buf, parser.reader, int64(num+2)) // + crlf
+	if err != nil {
+		if err == io.EOF {
+			return nil, fmt.Errorf(errorInvalidBulkStringLength, read, num)
 		}
-		totalRead += read
+		return nil, err
 	}
-	if buf[num] != cr || buf[num+1] != lf {
-		return nil, fmt.Errorf(errorInvalidBulkStringDelim, buf[num:n])
+	b := buf.Bytes()
+	if b[num] != cr || b[num+1] != lf {
+		return nil, fmt.Errorf(errorInvalidBulkStringDelim, b[num:])
 	}
-	return buf[0:num], nil
+	return b[0:num:num], nil
 }
 
 // nextBulkMessage gets a next bulk string bytes.
